@@ -152,6 +152,8 @@ def run(O, P):
             cls = "temps-cross-function-boundary"
         elif "sum-operand-omitted" in (m.get("out_shapes") or []):
             cls = "sum-operand-left-in-place-order"
+        elif re.search(r"function\s*\w*\s*\([^)]*\bundefined\b", code) or re.search(r"\b(?:var|let|const)\s+undefined\b", code):
+            cls = "undefined-rebound"       # hypothesis H5 does not hold for this input
         kk = [k for k in known if cls and k.get("class") == cls]
         if kk:
             seen_known.setdefault(kk[0]["id"], kk[0])
